@@ -153,6 +153,20 @@ CHECKS = {
         technique="runtime reference-model monitor over recorded reader sessions (list-slice model), exhaustive small scope",
         design="DESIGN.md section 2, C11",
     ),
+    "C13": dict(
+        script="checks/c13.py",
+        level="fault_enumeration",
+        text="The real bxdecay0-run binary is driven as a black box over generated command lines (all option dimensions, orders and forms, plus "
+             "hostile variants). Accepted ones: the event file must be byte-identical to what an API-only renderer (std::default_random_engine -> "
+             "std_random -> decay0_generator, as the README shows) produces, two runs identical, companion keys report the settings, @status=0 "
+             "present; refused ones: no record, no marker, a diagnostic; a share of them also under ASan/UBSan/libstdc++ assertions. Fault "
+             "enumeration: for selected command lines EVERY write() of the fault-free run is once a SIGKILL point and once an ENOSPC and EIO error "
+             "(strace inject, firing confirmed in the trace), and '@status=0 => event file complete' is checked after each.",
+        note="On-disk state only changes at write(), so syscall granularity is exhaustive for the two files of a command line; the command-line "
+             "space itself is sampled.",
+        technique="black-box runtime monitor of the CLI with an API-level reference renderer + syscall fault injection (strace) at every write",
+        design="DESIGN.md section 2, C13",
+    ),
     "C14": dict(
         script="checks/c14.py",
         level="exploration",
